@@ -286,6 +286,7 @@ func (p *Program) Build(extra ...func(*rux.Router)) *rux.Router {
 	opts = append(opts, extra...)
 	r := rux.New(opts...)
 	var atEnd []func()
+	scratch := make([]rux.HandlerFunc, 0, 8)
 	sharedSlices := map[int][]rux.HandlerFunc{}
 	groupMW := func(x *GroupStmt) []rux.HandlerFunc {
 		if x.SharedMW == 0 {
@@ -313,7 +314,10 @@ func (p *Program) Build(extra ...func(*rux.Router)) *rux.Router {
 			case *RouteStmt:
 				var route *rux.Route
 				main := x.Main.Handler()
-				mws := handlersOf(x.Variadic)
+				// the application builds the argument list of every call in one scratch slice that it
+				// reuses (and overwrites) for the next call: registration must not keep it
+				scratch = append(scratch[:0], handlersOf(x.Variadic)...)
+				mws := scratch
 				switch x.Style {
 				case "any":
 					// Any() builds the route, attaches the middleware, then registers it
@@ -348,7 +352,8 @@ func (p *Program) Build(extra ...func(*rux.Router)) *rux.Router {
 					if x.LaterAtEnd {
 						atEnd = append(atEnd, func() { route.Use(handlersOf(l)...) })
 					} else {
-						route.Use(handlersOf(l)...)
+						scratch = append(scratch[:0], handlersOf(l)...)
+						route.Use(scratch...)
 					}
 				}
 			case NotFoundStmt:
